@@ -22,7 +22,10 @@ def load_known():
 
 
 def known_predicates(prop: str) -> dict:
-    """predicate name -> finding entry, for findings recorded (not fixed) under this property"""
+    """predicate name -> finding entry, for findings recorded (not fixed) under this property.
+    XH_NO_KF=1 (set for the witness replay) disables the exclusion so that the recorded input is actually exercised."""
+    if os.environ.get("XH_NO_KF") == "1":
+        return {}
     return {f["predicate"]: f for f in load_known()["findings"] if f["property"] == prop}
 
 
